@@ -21,6 +21,9 @@ type POp struct {
 	// Reset(data) with the new data and hands it over again (if it is large
 	// enough; else a new slice as always).
 	Reuse bool `json:"reuse,omitempty"`
+	// Cfg (reinit, bare ParserBuffer only): Init is called again on the used
+	// value with this configuration, as on a buffer taken from a pool.
+	Cfg *PCfg `json:"cfg,omitempty"`
 	Off   int64         `json:"off,omitempty"`   // readat/byteat: absolute offset
 	Len   int           `json:"len,omitempty"`   // readat: len(p)
 	R     *ReaderScript `json:"r,omitempty"`     // readfrom
@@ -242,6 +245,8 @@ func (x *parserExec) step(op POp) {
 		x.doParse(op)
 	case "parsenil":
 		x.doParseNil(op)
+	case "reinit":
+		x.doReinit(op)
 	case "shrink":
 		x.doShrink()
 	case "reset":
@@ -444,6 +449,43 @@ func (x *parserExec) doReadFrom(op POp) {
 	if err != lz.ErrFullBuffer && err != io.EOF && !isReaderFault(err) {
 		x.report("C16", "ReadFrom returned undocumented error %s", errName(err))
 	}
+}
+
+// doReinit: ParserBuffer.Init on a used value. An accepted configuration makes
+// it an empty buffer of exactly that (defaults-completed) geometry, whatever
+// array it still holds; a refused one leaves it as it was.
+func (x *parserExec) doReinit(op POp) {
+	b, ok := x.p.(*bufParser)
+	if !ok || op.Cfg == nil {
+		return
+	}
+	var err error
+	if x.call("Init", []string{"C15", "C16"}, func() {
+		err = b.Init(lz.BufConfig{ShrinkSize: op.Cfg.ShrinkSize, BufferSize: op.Cfg.BufferSize,
+			WindowSize: op.Cfg.WindowSize, BlockSize: op.Cfg.BlockSize})
+	}) {
+		return
+	}
+	if err != nil {
+		return
+	}
+	want := op.Cfg.Completed()
+	bc := b.BufferConfig()
+	if bc.BufferSize != want.BufferSize || bc.ShrinkSize != want.ShrinkSize || bc.WindowSize != want.WindowSize || bc.BlockSize != want.BlockSize {
+		for _, pr := range []string{"C20", "C15"} {
+			x.report(pr, "after Init(%+v) on a used buffer BufferConfig() = %+v; the defaults-completed configuration is {ShrinkSize:%d BufferSize:%d WindowSize:%d BlockSize:%d}",
+				*op.Cfg, bc, want.ShrinkSize, want.BufferSize, want.WindowSize, want.BlockSize)
+		}
+	}
+	x.cfg.ShrinkSize, x.cfg.BufferSize, x.cfg.WindowSize, x.cfg.BlockSize = op.Cfg.ShrinkSize, op.Cfg.BufferSize, op.Cfg.WindowSize, op.Cfg.BlockSize
+	x.cc.ShrinkSize, x.cc.BufferSize, x.cc.WindowSize, x.cc.BlockSize = want.ShrinkSize, want.BufferSize, want.WindowSize, want.BlockSize
+	x.fed = x.fed[:0:0]
+	x.off, x.w = 0, 0
+	x.saLen = 0
+	x.resets++
+	x.contentChanges++
+	x.parsedSinceAdd = false
+	x.skippedRanges = nil
 }
 
 func (x *parserExec) doShrink() {
